@@ -17,9 +17,14 @@ seed,d=sys.argv[1],sys.argv[2]
 notes=open(os.path.join(seed,'NOTES.md')).read() if os.path.exists(os.path.join(seed,'NOTES.md')) else ''
 src=open(os.path.join(seed,d)).read()
 cand=None
-lines=[l for l in notes.splitlines() if d in l]+[l for l in notes.splitlines() if re.search(r'\b[Cc]opy\b', l)]+[l for l in src.splitlines()[:12] if 'opy' in l]
-for line in lines:
-    if True:
+# round 8 onwards: the demonstration says on its first lines which directory it belongs to
+for line in src.splitlines()[:15]:
+    m=re.search(r'(?:[Cc]opy|[Pp]lace|[Pp]ut|belongs|[Dd]irectory)[^\n]*?(?:into|in|to|under|:)\s+(?:the\s+)?[`"\']?(v2/jd|v2|lib|\.)[`"\']?/?(?=[\s,;)]|$)', line)
+    if m:
+        cand=m.group(1); break
+if cand is None:
+  lines=[l for l in notes.splitlines() if d in l]+[l for l in notes.splitlines() if re.search(r'\b[Cc]opy\b', l)]+[l for l in src.splitlines()[:12] if 'opy' in l]
+  for line in lines:
         m=re.search(r'/tmp/wt/[A-Za-z0-9]+((?:/[A-Za-z0-9_]+)*)/?', line)
         if m:
             sub=m.group(1).strip('/')
